@@ -29,6 +29,7 @@ type GVal struct {
 	Args    []*GVal
 	Global  *ssa.Global
 	Pos     token.Pos
+	Bind    map[*ssa.FreeVar]*GVal // closures: what each captured variable holds
 }
 
 type GEntry struct{ K, V *GVal }
@@ -91,6 +92,8 @@ type initReader struct {
 	c     *Ctx
 	cache map[*ssa.Global]*GVal
 	busy  map[*ssa.Global]bool
+	env   map[ssa.Value]*GVal // parameters of the constructor being unfolded
+	depth int
 }
 
 func newInitReader(c *Ctx) *initReader {
@@ -253,15 +256,49 @@ func (ir *initReader) fromCell(addr ssa.Value) *GVal {
 	return nil
 }
 
+// writesFreeVar: does the closure (or a closure nested in it) assign the captured variable?
+func writesFreeVar(f *ssa.Function, fv *ssa.FreeVar) bool {
+	w := false
+	allInstrs(f, false, func(in ssa.Instruction) {
+		if st, ok := in.(*ssa.Store); ok && st.Addr == ssa.Value(fv) {
+			w = true
+		}
+		if mc, ok := in.(*ssa.MakeClosure); ok {
+			for _, b := range mc.Bindings {
+				if b == ssa.Value(fv) {
+					w = true // handed on to a nested closure: not followed
+				}
+			}
+		}
+	})
+	return w
+}
+
 func (ir *initReader) val(v ssa.Value) *GVal {
 	switch x := v.(type) {
 	case *ssa.Const:
 		return &GVal{Kind: "const", Const: x.Value, Type: x.Type()}
 	case *ssa.Function:
 		return &GVal{Kind: "func", Func: x, Type: x.Type()}
+	case *ssa.Parameter:
+		if g, ok := ir.env[x]; ok {
+			return g
+		}
 	case *ssa.MakeClosure:
 		if f, ok := x.Fn.(*ssa.Function); ok {
-			return &GVal{Kind: "func", Func: f, Type: x.Type()}
+			out := &GVal{Kind: "func", Func: f, Type: x.Type(), Bind: map[*ssa.FreeVar]*GVal{}}
+			for i, b := range x.Bindings {
+				if i < len(f.FreeVars) {
+					if al, isAl := b.(*ssa.Alloc); isAl {
+						if sv := singleStore(al); sv != nil && !writesFreeVar(f, f.FreeVars[i]) {
+							out.Bind[f.FreeVars[i]] = ir.val(sv)
+							continue
+						}
+					}
+					out.Bind[f.FreeVars[i]] = ir.val(b)
+				}
+			}
+			return out
 		}
 	case *ssa.ChangeType:
 		r := ir.val(x.X)
@@ -312,6 +349,24 @@ func (ir *initReader) val(v ssa.Value) *GVal {
 		out := &GVal{Kind: "call", Callee: calleeName(&x.Call), Type: x.Type(), Pos: x.Pos()}
 		for _, a := range x.Call.Args {
 			out.Args = append(out.Args, ir.val(a))
+		}
+		// a straight-line module constructor (one block, one return, no calls that could
+		// have effects on its result) is unfolded: its result with the arguments substituted
+		if f := x.Call.StaticCallee(); f != nil && ir.c.InModule(f) && len(f.Blocks) == 1 && ir.depth < 4 && len(f.Params) == len(out.Args) {
+			if rets := returnsOf(f); len(rets) == 1 && len(rets[0].Results) == 1 {
+				saved := ir.env
+				ir.env = map[ssa.Value]*GVal{}
+				for i, p := range f.Params {
+					ir.env[p] = out.Args[i]
+				}
+				ir.depth++
+				res := ir.val(rets[0].Results[0])
+				ir.depth--
+				ir.env = saved
+				if res.Kind == "func" || res.Kind == "const" {
+					return res
+				}
+			}
 		}
 		return out
 	case *ssa.BinOp:
